@@ -167,16 +167,23 @@ def zmtime(dt):
 
 
 def gen_archive(rng, name, depth, state):
-    """returns (members spec for the model, zip bytes); state carries a content-id counter"""
+    """returns (members spec for the model, zip bytes); state carries a content-id counter.  `name` is one module name or
+    a list of them (members are drawn from the spellings of all of them)"""
     spec = []
     buf = io.BytesIO()
-    pool = sorted(liberal_variants(name))
+    names = [name] if isinstance(name, str) else list(name)
+    pool = sorted(set(v for nm in names for v in liberal_variants(nm)))
+    name = names[0]
     with zipfile.ZipFile(buf, 'w') as z:
         for _ in range(rng.randint(1, 4)):
             r = rng.random()
-            if r < 0.25 and depth < 3:
-                inner_spec, inner_bytes = gen_archive(rng, name, depth + 1, state)
-                path = rng.choice(['', 'nested/', 'a/b/']) + 'inner%d%s' % (state['n'], rng.choice(['.zip', '.ZIP']))
+            if r < state.get('nest', 0.25) and depth < 3:
+                inner_spec, inner_bytes = gen_archive(rng, names, depth + 1, state)
+                # inner archives in different parents may well have the same name
+                stem = 'inner%d' % state['n'] if rng.random() >= state.get('same', 0.5) else rng.choice(['mibs', 'inner'])
+                path = rng.choice(['', 'nested/', 'a/b/']) + stem + rng.choice(['.zip', '.ZIP'])
+                if any(m[1] == path for m in spec):
+                    path = 'u%d-%s' % (state['n'], path.replace('/', '-'))
                 state['n'] += 1
                 z.writestr(zipfile.ZipInfo(path, (2020, 1, 1, 0, 0, 0)), inner_bytes)
                 spec.append(['zip', path, inner_spec])
@@ -204,29 +211,36 @@ def leaves(spec):
                 yield x
 
 
-def run_zipreader(rng, name, opts):
+def run_zipreader(rng, name, opts, more=()):
+    """one archive, one reader; looks up `name` and then each name in `more` through the same reader object.
+    Returns (result, model request, spec) of the first lookup, or with `more` a list of them."""
     from pysmi.reader.zipreader import ZipReader
     from pysmi import error
     from pysmi.compat import decode
     base = scratch_dir()
     try:
-        spec, data = gen_archive(rng, name, 0, {'n': 0})
+        spec, data = gen_archive(rng, [name] + list(more), 0, {'n': 0, 'nest': 0.4, 'same': 0.9} if more else {'n': 0})
         zp = os.path.join(base, 'mibs.zip')
         with open(zp, 'wb') as f:
             f.write(data)
         r = ZipReader(zp).setOptions(originalMatching=opts['original'], uppercaseMatching=opts['uppercase'],
                                      lowcaseMatching=opts['lowcase'], fuzzyMatching=opts['fuzzy'])
-        try:
-            info, text = r.getData(name)
-            cands = [c for c in range(len(CONTENTS)) if decode(CONTENTS[c]) == text]
-            got = {'alias': info.name, 'file': info.file, 'content': cands, 'mtime': int(info.mtime)}
-        except error.PySmiReaderFileNotFoundError:
-            got = 'notfound'
-        except IndexError:
-            got = 'indexerror'
-        req = dict(opts, op='zipreader', name=name, exts=EXTS, members=spec,
-                   empty=[i for i, c in enumerate(CONTENTS) if not c])
-        return got, req, spec
+        results = []
+        for nm in [name] + list(more):
+            try:
+                info, text = r.getData(nm)
+                cands = [c for c in range(len(CONTENTS)) if decode(CONTENTS[c]) == text]
+                got = {'alias': info.name, 'file': info.file, 'content': cands, 'mtime': int(info.mtime)}
+            except error.PySmiReaderFileNotFoundError:
+                got = 'notfound'
+            except IndexError:
+                got = 'indexerror'
+            req = dict(opts, op='zipreader', name=nm, exts=EXTS, members=spec,
+                       empty=[i for i, c in enumerate(CONTENTS) if not c])
+            if results:
+                req['history'] = [x[1]['name'] for x in results]      # looked up earlier through the same reader object
+            results.append((got, req, spec))
+        return results if more else results[0]
     finally:
         shutil.rmtree(base, ignore_errors=True)
 
@@ -322,10 +336,21 @@ def run(ctx):
                     name, sorted(hit)), 'input': {'filereader': req}})
         reqs.append(req)
         metas.append(('dir', got))
+    lookups = []
     for i in range(n):
         name = rng.choice(NAMES)
         opts = gen_opts(rng)
-        got, req, spec = run_zipreader(rng, name, opts)
+        if i % 3 == 2:
+            # several lookups through one reader object: an answer does not depend on what was looked up before
+            if i % 2 == 0:
+                opts = {'original': True, 'uppercase': True, 'lowcase': True, 'fuzzy': rng.random() < 0.7}
+            seq = run_zipreader(rng, name, opts, more=[rng.choice(NAMES) for _ in range(rng.randint(1, 4))])
+            res.count('zip-reader-reused')
+            lookups.extend(seq)
+        else:
+            lookups.append(run_zipreader(rng, name, opts))
+    for got, req, spec in lookups:
+        name, opts = req['name'], {'original': req['original'], 'uppercase': req['uppercase'], 'lowcase': req['lowcase'], 'fuzzy': req['fuzzy']}
         lv = list(leaves(spec))
         res.case(('zip', spec, name, sorted(opts.items())), bool(lv))
         res.count('zipreader:' + (got if isinstance(got, str) else 'found'))
@@ -398,6 +423,11 @@ def replay(payload):
             r = ZipReader(zp).setOptions(originalMatching=req['original'], uppercaseMatching=req['uppercase'],
                                          lowcaseMatching=req['lowcase'], fuzzyMatching=req['fuzzy'])
             lv = list(leaves(req['members']))
+            for earlier in req.get('history', []):
+                try:
+                    r.getData(earlier)
+                except error.PySmiReaderFileNotFoundError:
+                    pass
             try:
                 info, text = r.getData(req['name'])
                 ok = any(b == info.file and decode(CONTENTS[c]) == text and m == int(info.mtime) for b, c, m in lv) \
